@@ -179,6 +179,17 @@ Definition timedelta_deserializer (v : pyval) : td_res :=
   | _ => TdRej
   end.
 
+(* RegisteredType.deserializer (what the registered-type branch of adapt_typehints and the handler call):
+   the exceptions listed in deserializer_exceptions — register_type's default, read from the source into
+   Gen/C20Registry.deserializer_catches_overflow — are turned into ValueError "Not of type ...". The
+   OverflowError of the timedelta constructor is an ArithmeticError: a clean rejection when that is listed,
+   an escaping exception otherwise. *)
+Definition td_registered (catches_overflow : bool) (v : pyval) : td_res :=
+  match timedelta_deserializer v with
+  | TdOverflow => if catches_overflow then TdRej else TdOverflow
+  | r => r
+  end.
+
 (* ------------------------------------------------------------------------------ SecretStr *)
 (* register_type(SecretStr): serializer = str, and SecretStr.__str__ returns the mask *)
 Definition secret_serializer (secret : str) : str := s_stars.
